@@ -8,6 +8,7 @@
    the implementation on every run of the check. *)
 From Coq Require Import List Bool.
 From PA Require Import model.Dispatch proofs.DispatchProofs gen.DirGuards proofs.DirGuardsEq.
+From PA Require Import model.OptNamesDoc gen.OptNames proofs.OptNamesEq.
 Import ListNotations.
 
 (* The direction guards of the model are those of the current source:
@@ -33,6 +34,29 @@ Theorem C20_shape_guards_are_source :
      is_raise (tr_outcome m Inverse sh NoOpt) = is_raise (fn_outcome m Inverse sh NoOpt)).
 Proof. exact (conj fn_shape_guards_eq (conj model_tr_shape_guards model_tr_then_fn_shape)). Qed.
 Print Assumptions C20_shape_guards_are_source.
+
+(* The names the source accepts for every name-valued option are exactly the
+   documented ones: gen/OptNames.v holds the literals each option is compared
+   with (or the keys of the dictionary it is looked up in) in the function that
+   interprets it, which must end with a `raise ValueError` reporting the option
+   (tools/translate/opt_names.py fails on any other use of the option, e.g.
+   .startswith).  So "a value outside the documented set" (the Bad* / *Reg* /
+   RbasexOut / RbasexRmax / DaunDegree classes of the request space) is a value
+   that matches none of the tests. *)
+Theorem C20_option_names_are_source :
+  src_crop_names = doc_crop_names /\
+  src_symmetrize_names = doc_symmetrize_names /\
+  src_daun_reg_types = doc_daun_reg_types /\
+  src_daun_reg_strings = doc_daun_reg_strings /\
+  src_daun_degrees = doc_daun_degrees /\
+  src_rbasex_out_names = doc_rbasex_out_names /\
+  src_rbasex_reg_types = doc_rbasex_reg_types /\
+  src_rbasex_reg_strings = doc_rbasex_reg_strings /\
+  src_rmax_names = doc_rmax_names /\
+  src_origin_methods = doc_origin_methods /\
+  src_transform_methods = doc_transform_methods.
+Proof. exact opt_names_eq. Qed.
+Print Assumptions C20_option_names_are_source.
 
 Theorem C20_request_space : length all_requests = 315.
 Proof. exact request_space_size. Qed.
